@@ -6,6 +6,10 @@ ALL = ["C%02d" % i for i in range(1, 21)]
 
 # id -> (technique, level text, level note, design ref)
 CLAIMED = {
+ "C12": ("proptest grammar-directed hostile inputs (boundary integers in every numeric position, unusual identifiers, misplaced attributes, recursion, cyclic use) run in rlimit-ed worker processes; parse-error positions through add_file; libFuzzer target build_any (thorough)",
+         "Generated-input search with process-level observation: each case runs in a worker under RLIMIT_AS 2 GiB and RLIMIT_CPU 20 s through parse_str, add_module+build+write_module and pyxis::build; any panic (overflow checks on), abort, segfault or limit hit is a violation after one confirming re-run; parse errors must carry file:line:col not after the offending token. The thorough tier adds a coverage-guided libFuzzer campaign whose crashing inputs are re-judged by the same oracle. Exploration.",
+         "Resource proportionality is judged against fixed ceilings (2 GiB, 20 CPU-s); positive table sizes/indices are capped at 65536 in generated inputs.",
+         "DESIGN.md §4 C12"),
  "C04": ("proptest: executed vfunc wrappers against recording trampolines in generated fake vftables (L3), rustc offset_of! probes on <T>Vftable for both widths (L2), reference slot model for contradicting index/size (L0)",
          "Generated-input search with execution as oracle: every emitted virtual-call wrapper is run on the x86-64 host against a table of recording stubs (two different tables per wrapper) and must make exactly one call into its slot with receiver and arguments in order and pass the result through; slot offsets and table sizes are judged by rustc on both widths; contradicting #[index]/#[size] must be rejected. Exploration.",
          "Execution on the host uses ABI strings normalised to C; integer and pointer arguments only; up to 10 integer-class arguments observed (6 registers + 4 stack slots).",
